@@ -51,6 +51,7 @@ theorem step_ok (m : State) (j : Mon) (o : Op) (h : Rel m j) (hn : j.now = m.now
         h.subs, h.vals, by omega⟩
     · have := pending_le_length m.vars; omega
   | done k => exact done_ok m j k h
+  | fail k => exact fail_ok m j k h
   | setKey sid k => exact setKey_ok m j sid k h
 
 /-- from any related pair of states, the trace of every continuation is accepted -/
@@ -120,11 +121,11 @@ theorem no_overdue_timer (m : State) (j : Mon) (dt : Nat) (h : Rel m j) (hn : j.
     initial delivery is still in flight when a variable changes, an expiry and a timer firing; the theorem's
     hypothesis holds and the trace is the expected, non-trivial one -/
 
-def exCfg : Cfg := { base := 1704067200000000, vars := [⟨true, 200000, some 0⟩, ⟨true, 0, none⟩, ⟨false, 0, some 3⟩] }
+def exCfg : Cfg := { base := 1704067200000000, vars := [⟨true, 200000, some (.int 0)⟩, ⟨true, 0, none⟩, ⟨false, 0, some (.str ['x'])⟩, ⟨true, 0, some (.bool false)⟩] }
 def exOps : List Op :=
-  [ .subscribe .absent (some "<http://h/a>".toList) (some "Second-1".toList), .set 0 1, .adv 50000, .set 0 2,
-    .subscribe .absent (some "<http://h/b>".toList) none, .set 1 5, .done 3, .adv 2000000, .set 1 6,
-    .setMany [(0, 7), (0, 8), (1, 9), (0, 9)], .adv 300000,
+  [ .subscribe .absent (some "<http://h/a>".toList) (some "Second-1".toList), .set 0 (.int 1), .adv 50000, .set 0 (.int 2),
+    .subscribe .absent (some "<http://h/b>".toList) none, .set 1 (.str ['a', '<', 'b']), .fail 2, .done 3, .adv 2000000, .set 3 (.bool true),
+    .setMany [(0, .int 7), (0, .int (-8)), (1, .str []), (2, .str ['y']), (0, .int 9)], .adv 300000,
     .subscribe (.known 0) none none, .unsubscribe (.known 1), .unsubscribe (.known 1) ]
 
 example : ok (exCfg.vars.map (·.evented)) (exCfg.vars.map (·.rate)) (exCfg.vars.map (·.default)) (run (init exCfg) exOps) = true :=
@@ -136,47 +137,98 @@ example : ok (exCfg.vars.map (·.evented)) (exCfg.vars.map (·.rate)) (exCfg.var
 def exCb : Str := ['<', 'a', '>']
 def exSub : Item := .op (.subscribe .absent (some exCb) none)
 def ex200 (k : Nat) : Item := .obs (.resp 200 (some k) (some 3600))
-def exN (sid seq : Nat) (t : Int) (v : Int) : Item := .obs (.notify sid seq t ['a'] [(0, some v)])
-def J (rate : Nat) (tr : List Item) : Bool := ok [true] [rate] [some 0] tr
+def exN (sid seq : Nat) (t : Int) (v : Nat) : Item := .obs (.notify sid seq t ['a'] [(0, [digitChar v])])
+def J (rate : Nat) (tr : List Item) : Bool := ok [true] [rate] [some (.int 0)] tr
 
 -- accepted: subscribe, initial event, change, trigger, event with the next key
-example : J 0 [exSub, ex200 0, exN 0 0 0 0, .op (.set 0 5), .obs (.trig 0 0), exN 0 1 0 5] = true := by decide
+example : J 0 [exSub, ex200 0, exN 0 0 0 0, .op (.set 0 (.int 5)), .obs (.trig 0 0), exN 0 1 0 5] = true := by decide
 -- J1: SID not fresh / well-formed SUBSCRIBE refused
 example : J 0 [exSub, ex200 0, exN 0 0 0 0, exSub, ex200 0, exN 0 1 0 0] = false := by decide
 example : J 0 [exSub, .obs (.resp 404 none none)] = false := by decide
 -- J2: no initial event
-example : J 0 [exSub, ex200 0, .op (.set 0 5)] = false := by decide
+example : J 0 [exSub, ex200 0, .op (.set 0 (.int 5))] = false := by decide
 -- J3: key skipped / stale body / NOTIFY after UNSUBSCRIBE / NOTIFY after expiry (and accepted one µs before)
-example : J 0 [exSub, ex200 0, exN 0 0 0 0, .op (.set 0 5), .obs (.trig 0 0), exN 0 2 0 5] = false := by decide
-example : J 0 [exSub, ex200 0, exN 0 0 0 0, .op (.set 0 5), .obs (.trig 0 0), exN 0 1 0 0] = false := by decide
+example : J 0 [exSub, ex200 0, exN 0 0 0 0, .op (.set 0 (.int 5)), .obs (.trig 0 0), exN 0 2 0 5] = false := by decide
+example : J 0 [exSub, ex200 0, exN 0 0 0 0, .op (.set 0 (.int 5)), .obs (.trig 0 0), exN 0 1 0 0] = false := by decide
 example : J 0 [exSub, ex200 0, exN 0 0 0 0, .op (.unsubscribe (.known 0)), .obs (.resp 200 none none),
-    .op (.set 0 5), .obs (.trig 0 0), exN 0 1 0 5] = false := by decide
-example : J 0 [exSub, ex200 0, exN 0 0 0 0, .op (.adv 3600000000), .op (.set 0 5), .obs (.trig 0 3600000000),
+    .op (.set 0 (.int 5)), .obs (.trig 0 0), exN 0 1 0 5] = false := by decide
+example : J 0 [exSub, ex200 0, exN 0 0 0 0, .op (.adv 3600000000), .op (.set 0 (.int 5)), .obs (.trig 0 3600000000),
     exN 0 1 3600000000 5] = false := by decide
-example : J 0 [exSub, ex200 0, exN 0 0 0 0, .op (.adv 3599999999), .op (.set 0 5), .obs (.trig 0 3599999999),
+example : J 0 [exSub, ex200 0, exN 0 0 0 0, .op (.adv 3599999999), .op (.set 0 (.int 5)), .obs (.trig 0 3599999999),
     exN 0 1 3599999999 5] = true := by decide
 -- J3: 2^32-1 is followed by 1, not by 0
-example : J 0 [exSub, ex200 0, exN 0 0 0 0, .op (.setKey 0 4294967295), .op (.set 0 5), .obs (.trig 0 0),
-    exN 0 4294967295 0 5, .op (.set 0 6), .obs (.trig 0 0), exN 0 1 0 6] = true := by decide
-example : J 0 [exSub, ex200 0, exN 0 0 0 0, .op (.setKey 0 4294967295), .op (.set 0 5), .obs (.trig 0 0),
-    exN 0 4294967295 0 5, .op (.set 0 6), .obs (.trig 0 0), exN 0 0 0 6] = false := by decide
+example : J 0 [exSub, ex200 0, exN 0 0 0 0, .op (.setKey 0 4294967295), .op (.set 0 (.int 5)), .obs (.trig 0 0),
+    exN 0 4294967295 0 5, .op (.set 0 (.int 6)), .obs (.trig 0 0), exN 0 1 0 6] = true := by decide
+example : J 0 [exSub, ex200 0, exN 0 0 0 0, .op (.setKey 0 4294967295), .op (.set 0 (.int 5)), .obs (.trig 0 0),
+    exN 0 4294967295 0 5, .op (.set 0 (.int 6)), .obs (.trig 0 0), exN 0 0 0 6] = false := by decide
 -- J4: NOTIFY without a trigger
-example : J 0 [exSub, ex200 0, exN 0 0 0 0, .op (.set 0 5), exN 0 1 0 5] = false := by decide
+example : J 0 [exSub, ex200 0, exN 0 0 0 0, .op (.set 0 (.int 5)), exN 0 1 0 5] = false := by decide
 -- J5: two triggers of one variable inside its interval
-example : J 200000 [exSub, ex200 0, exN 0 0 0 0, .op (.set 0 5), .obs (.trig 0 0), exN 0 1 0 5, .op (.adv 100000),
-    .op (.set 0 6), .obs (.trig 0 100000), exN 0 2 100000 6] = false := by decide
+example : J 200000 [exSub, ex200 0, exN 0 0 0 0, .op (.set 0 (.int 5)), .obs (.trig 0 0), exN 0 1 0 5, .op (.adv 100000),
+    .op (.set 0 (.int 6)), .obs (.trig 0 100000), exN 0 2 100000 6] = false := by decide
 -- J6: a deferred change may wait until the interval has passed, but not longer (this is F15a)
-example : J 200000 [exSub, ex200 0, exN 0 0 0 0, .op (.set 0 5), .obs (.trig 0 0), exN 0 1 0 5, .op (.adv 100000),
-    .op (.set 0 6), .op (.adv 50000)] = true := by decide
-example : J 200000 [exSub, ex200 0, exN 0 0 0 0, .op (.set 0 5), .obs (.trig 0 0), exN 0 1 0 5, .op (.adv 100000),
-    .op (.set 0 6), .op (.adv 200000)] = false := by decide
-example : J 200000 [exSub, ex200 0, exN 0 0 0 0, .op (.set 0 5), .obs (.trig 0 0), exN 0 1 0 5, .op (.adv 100000),
-    .op (.set 0 6), .op (.adv 200000), .obs (.trig 0 200000), exN 0 2 200000 6] = true := by decide
+example : J 200000 [exSub, ex200 0, exN 0 0 0 0, .op (.set 0 (.int 5)), .obs (.trig 0 0), exN 0 1 0 5, .op (.adv 100000),
+    .op (.set 0 (.int 6)), .op (.adv 50000)] = true := by decide
+example : J 200000 [exSub, ex200 0, exN 0 0 0 0, .op (.set 0 (.int 5)), .obs (.trig 0 0), exN 0 1 0 5, .op (.adv 100000),
+    .op (.set 0 (.int 6)), .op (.adv 200000)] = false := by decide
+example : J 200000 [exSub, ex200 0, exN 0 0 0 0, .op (.set 0 (.int 5)), .obs (.trig 0 0), exN 0 1 0 5, .op (.adv 100000),
+    .op (.set 0 (.int 6)), .op (.adv 200000), .obs (.trig 0 200000), exN 0 2 200000 6] = true := by decide
 -- J7: renewal of a live subscription refused
 example : J 0 [exSub, ex200 0, exN 0 0 0 0, .op (.subscribe (.known 0) none none), .obs (.resp 404 none none)] = false := by
   decide
 -- J8: unknown SID renewed / unsubscribed successfully
 example : J 0 [.op (.subscribe .unknown none none), .obs (.resp 200 (some 0) (some 5))] = false := by decide
 example : J 0 [.op (.unsubscribe .unknown), .obs (.resp 200 none none)] = false := by decide
+
+-- J3 (body): booleans may travel as 1/true/yes in any case, integers in any `int()` spelling, strings verbatim;
+-- a missing, extra (non-evented) or wrong entry is rejected
+example : bodyOk [true, false, true, true] [some (.bool true), some (.int 3), some (.int (-12)), some (.str ['a', '&'])]
+    [(0, ['T', 'r', 'u', 'e']), (2, ['-', '1', '2']), (3, ['a', '&'])] = true := by decide
+example : bodyOk [true, true] [some (.bool true), some (.int 5)] [(0, ['1']), (1, [' ', '+', '0', '5'])] = true := by decide
+example : bodyOk [true, true] [some (.bool false), some (.int 5)] [(0, ['T', 'r', 'u', 'e']), (1, ['5'])] = false := by decide
+example : bodyOk [true, false] [some (.int 1), some (.int 3)] [(0, ['1']), (1, ['3'])] = false := by decide
+example : bodyOk [true, true] [some (.int 1), some (.str ['x'])] [(0, ['1'])] = false := by decide
+example : bodyOk [true] [some (.str ['x'])] [(0, ['x', ' '])] = false := by decide
+
+/-- what the model writes into an event (`str(value)`) is read back as the value by every subscriber that
+    decodes UPnP integers with `int()`, booleans case-insensitively and strings verbatim -/
+theorem wire_text_reads_back (v : Option Val) : textOk v (wireOf v) = true := textOk_wireOf v
+
+/-- the model's event body is accepted by the judge's body test: every evented variable once, with a text that
+    carries its value, and no entry for a variable that is not evented -/
+theorem body_complete (ev : List Bool) (vals : List (Option Val)) : bodyOk ev vals (bodyOf ev vals) = true :=
+  bodyOk_bodyOf ev vals
+
+/-- variables that are not evented never appear in an event of the model -/
+theorem non_evented_absent (ev : List Bool) (vals : List (Option Val)) (i : Nat) (t : Str)
+    (h : (i, t) ∈ bodyOf ev vals) : ev[i]? = some true := by
+  suffices H : ∀ (ev : List Bool) (vals : List (Option Val)) (o : Nat), (i, t) ∈ bodyOf.go o ev vals →
+      o ≤ i ∧ ev[i - o]? = some true by
+    have := (H ev vals 0 h).2
+    simpa using this
+  intro ev
+  induction ev with
+  | nil => intro vals o h; simp [bodyOf.go] at h
+  | cons e es ih =>
+    intro vals o h
+    cases vals with
+    | nil => simp [bodyOf.go] at h
+    | cons v vs =>
+      unfold bodyOf.go at h
+      cases e with
+      | true =>
+        simp only [if_true, List.mem_cons, Prod.mk.injEq] at h
+        rcases h with ⟨rfl, _⟩ | h
+        · simp
+        · obtain ⟨h1, h2⟩ := ih vs (o + 1) h
+          refine ⟨by omega, ?_⟩
+          have : i - o = (i - (o + 1)) + 1 := by omega
+          rw [this]; simpa using h2
+      | false =>
+        simp only [Bool.false_eq_true, if_false] at h
+        obtain ⟨h1, h2⟩ := ih vs (o + 1) h
+        refine ⟨by omega, ?_⟩
+        have : i - o = (i - (o + 1)) + 1 := by omega
+        rw [this]; simpa using h2
 
 end Upnp.C15
